@@ -78,6 +78,18 @@ def gen_arith():
     return r.returncode == 0, r.stdout.strip()
 
 
+def gen_loops(group):
+    """translate the loop functions of reconcile.rs / plan.rs into Lean `do` blocks (tools/rs2lean_do.py)"""
+    r = run([sys.executable, os.path.join(VERIF, "tools", "rs2lean_do.py"), group])
+    return r.returncode == 0, r.stdout.strip()
+
+
+LOOP_GROUPS = {"C18": ("reconcile", "C18.source_reconcile_is_model"),
+               "C19": ("plan", "C19.source_build_plan_is_model / source_is_excluded_is_model / source_glob_match_is_model"),
+               "C15": ("plan", "C15.source_is_excluded_is_model / source_glob_match_is_model"),
+               "C04": ("plan", "C04.source_build_plan_is_model")}
+
+
 def lake_build(modules):
     """Returns (ok, output, failing theorem/decl names)."""
     with Lock("lake"):
@@ -347,6 +359,10 @@ def check(pid, tier, replay=None):
         ok, out = gen_arith()
         if not ok:
             broken.append(f"Copia.Gen.Checksum (translator: {out}) — theorems C17.source_*_is_model no longer check")
+    if pid in LOOP_GROUPS:
+        ok, out = gen_loops(LOOP_GROUPS[pid][0])
+        if not ok:
+            broken.append(f"Copia.Gen.Loops{LOOP_GROUPS[pid][0].capitalize()} (translator: {out}) — theorems {LOOP_GROUPS[pid][1]} no longer check")
     # 2. proofs
     ok, out, failing = lake_build(cfg["modules"])
     proofs_ok = ok
@@ -450,7 +466,7 @@ def check(pid, tier, replay=None):
             "axioms used by the property theorems: " + ", ".join(sorted({a for v in thms.values() for a in v}) or ["none"]),
             "no native_decide / bv_decide / sorry / own axioms (source audit + #print axioms on every theorem)",
             "hand-written Lean model tied to the Rust code by the correspondence run of this check (generator quality bounds what it sees)",
-            "tools/gen_constants.py (regex extraction of constants from /repo into Copia/Gen/Constants.lean)", "tools/rs2lean.py (translator: Fingerprint::same, reconcile_path, needs_transfer, cas_decide → Copia/Gen/Decisions.lean; proved equal to the hand models in Lemmas/GenEq)", "tools/rs2lean_arith.py (translator: both new/roll/push/digest of src/checksum.rs → Copia/Gen/Checksum.lean; proved equal to Model/Checksum in Lemmas/GenEqChecksum)",
+            "tools/gen_constants.py (regex extraction of constants from /repo into Copia/Gen/Constants.lean)", "tools/rs2lean.py (translator: Fingerprint::same, reconcile_path, needs_transfer, cas_decide → Copia/Gen/Decisions.lean; proved equal to the hand models in Lemmas/GenEq)", "tools/rs2lean_arith.py (translator: both new/roll/push/digest of src/checksum.rs → Copia/Gen/Checksum.lean; proved equal to Model/Checksum in Lemmas/GenEqChecksum)", "tools/rs2lean_do.py (translator, statement by statement into Lean `do` blocks: reconcile (reconcile.rs) → Copia/Gen/LoopsReconcile.lean; build_plan, is_excluded, glob_match (plan.rs) → Copia/Gen/LoopsPlan.lean; proved equal to Model/Reconcile and Model/Plan in Lemmas/GenEqLoops*; interprets BTreeMap as a key-ordered association list, sort as mergeSort over the key order, `while` as a fuel-bounded loop returning none when the fuel runs out)",
         ] + cfg.get("trusted_base", []),
         "theorems": {k: v for k, v in sorted(thms.items())},
         "evaluations": corr.get("evaluations", 0),
